@@ -46,6 +46,33 @@ class Term:
 CONST_SUFFIX = {"_none": None, "_zero": 0, "_false": False, "_empty": ""}
 
 
+# A function whose name ends in one of these returns, for every output, a SEQUENCE of two projections of its free term (a tuple, a
+# list, a 1-D object ndarray): element values that are themselves sequences are where `np.array(items)` / `np.asarray(outputs)` merge an
+# axis into the data.  Same argument as above: `canon` maps `app f …` (or a `pick` of it) to `arr [2] [proj · [0], proj · [1]]`, and `enc`
+# already reads tuples, lists and 1-D arrays as the same value.
+SEQ_SUFFIX = {"_pair": "tuple", "_lst": "list", "_nd": "ndarray"}
+
+
+def seq_of(name):
+    if isinstance(name, str):
+        for suf, k in SEQ_SUFFIX.items():
+            if name.endswith(suf):
+                return k
+    return None
+
+
+def _seq_call(j):
+    """True when a model value JSON is a call (or a pick of a call) of a sequence-valued interpreted function"""
+    while isinstance(j, dict):
+        if "f" in j and "k" in j:
+            return seq_of(j["f"]) is not None
+        if "pick" in j:
+            j = j["pick"][0]
+        else:
+            break
+    return False
+
+
 def const_of(name):
     """(True, constant) when `name` denotes an interpreted constant function, else (False, None)."""
     if isinstance(name, str):
@@ -129,6 +156,9 @@ def canon(j):
         is_c, c = _const_call(j)
         if is_c:
             return enc(c)
+        if _seq_call(j):
+            base = _canon_plain(j)
+            return {"arr": [[2], [{"proj": [base, [0]]}, {"proj": [base, [1]]}]]}
         if "f" in j:
             return {"f": j["f"], "k": sorted(([k, canon(x)] for k, x in j["k"]), key=lambda kv: kv[0])}
         if "t" in j:
@@ -141,6 +171,13 @@ def canon(j):
             return {"proj": [canon(j["proj"][0]), j["proj"][1]]}
         return j
     return j
+
+
+def _canon_plain(j):
+    """`canon` of a call / pick of a call WITHOUT the sequence interpretation at the top (its arguments are canonicalised as usual)"""
+    if "f" in j:
+        return {"f": j["f"], "k": sorted(([k, canon(x)] for k, x in j["k"]), key=lambda kv: kv[0])}
+    return {"pick": [_canon_plain(j["pick"][0]), j["pick"][1]]}
 
 
 def dec(j):
@@ -242,6 +279,7 @@ def make_func(name, params, outputs, defaults=None, internal_shape=None, log=Non
     counter = itertools.count()
 
     is_const, const = const_of(name)
+    seq_kind = seq_of(name) if internal_shape is None else None
 
     def _impl(kw):
         kw_frozen = sorted((k, freeze(v)) for k, v in kw.items())
@@ -260,6 +298,13 @@ def make_func(name, params, outputs, defaults=None, internal_shape=None, log=Non
                 raise exc
 
         def shaped(base):
+            if seq_kind is not None:
+                pair = [Term("proj", (base, (0,))), Term("proj", (base, (1,)))]
+                if seq_kind == "ndarray":
+                    a = np.empty(2, dtype=object)
+                    a[0], a[1] = pair
+                    return a
+                return tuple(pair) if seq_kind == "tuple" else pair
             if internal_shape is None:
                 return const if is_const else base
             arr = np.empty(internal_shape, dtype=object)
